@@ -1,5 +1,6 @@
 import Mouette.Generated.C09Glue
 import Mouette.Lemmas.C09Glue
+import Mouette.Lemmas.C09Conn
 import Mouette.Props.C09PathMesh
 import Mouette.Props.C09Bridge
 /-
@@ -287,6 +288,124 @@ theorem vertex_set_start_in_set (hpop : PopOK pop) (hpos : ∀ u, ∀ e ∈ adj 
 
 end
 
+/-! ### round 5: the `connectivity` dict of dicts as written, and the adjacency of the point-to-point query -/
+
+/-- mesh edge number `ie.1` with end points `ie.2` as a weighted edge of the model (weight as written for the mode) -/
+def toW (mode : C09G.WMode) (len w : Nat → Rat) (ie : Nat × Nat × Nat) : Nat × Nat × Rat :=
+  (ie.2.1, ie.2.2, C09G.connWeight mode len w ie.1)
+
+theorem connEdge_eq (mode : C09G.WMode) (len w : Nat → Rat) (c : Conn) (ie : Nat × Nat × Nat) :
+    C09G.connEdge mode len w c ie = edgeStepW c (toW mode len w ie) := by
+  cases mode <;> rfl
+
+theorem connSink_eq (sink : Nat) (c : Conn) (s : Nat) : C09G.connSink sink c s = sinkStepW sink C09G.sinkWeight c s := rfl
+
+/-- `bridge_connBuild`: the construction of `connectivity` as written (one empty dict per vertex id and one for TARGET, the
+loop over the enumerated mesh edges writing both directions with the weight of the mode, the loop joining every target to
+TARGET with weight 0), read with Python's dict semantics (items in insertion order), IS the model's adjacency
+`sinkAdj (adjOf edges) n targets` — provided the mesh edges are pairwise different unordered pairs without loops with end
+points `< n`, and the targets are pairwise different vertices `< n` (TARGET = −1 is the fresh id `n`). -/
+theorem bridge_connBuild (mode : C09G.WMode) (len w : Nat → Rat) (ies : List (Nat × Nat × Nat)) (n : Nat) (targets : List Nat)
+    (hl : ∀ ie ∈ ies, ie.2.1 ≠ ie.2.2) (hd : DistinctEdges (ies.map (toW mode len w)))
+    (hwf : ∀ ie ∈ ies, ie.2.1 < n ∧ ie.2.2 < n) (ht : ∀ t ∈ targets, t < n) (hnd : targets.Nodup) :
+    C09G.connBuild mode len w ies n targets = sinkAdj (adjOf (ies.map (toW mode len w))) n targets := by
+  have hW : ∀ e ∈ ies.map (toW mode len w), e.1 < n ∧ e.2.1 < n := by
+    intro e he
+    obtain ⟨ie, hie, rfl⟩ := List.mem_map.mp he
+    exact hwf ie hie
+  have hlW : ∀ e ∈ ies.map (toW mode len w), e.1 ≠ e.2.1 := by
+    intro e he
+    obtain ⟨ie, hie, rfl⟩ := List.mem_map.mp he
+    exact hl ie hie
+  have hedges : ies.foldl (C09G.connEdge mode len w) (fun _ => []) = adjOf (ies.map (toW mode len w)) := by
+    have : ies.foldl (C09G.connEdge mode len w) (fun _ => []) = (ies.map (toW mode len w)).foldl edgeStepW (fun _ => []) := by
+      rw [List.foldl_map]
+      congr 1
+      funext c ie
+      exact connEdge_eq mode len w c ie
+    rw [this]
+    funext u
+    exact edges_fold_adjOf _ hlW hd u
+  have hkeys : ∀ u, ∀ p ∈ adjOf (ies.map (toW mode len w)) u, p.1 < n := adjOf_wf hW
+  have hn : adjOf (ies.map (toW mode len w)) n = [] := by
+    apply List.eq_nil_iff_forall_not_mem.mpr
+    intro p hp
+    obtain ⟨e, he, h | h⟩ := adjOf_key hp
+    · have := (hW e he).1; omega
+    · have := (hW e he).2; omega
+  unfold C09G.connBuild
+  simp only [hedges]
+  have hs : (fun c s => C09G.connSink n c s) = sinkStepW n 0 := by
+    funext c s; exact connSink_eq n c s
+  rw [show targets.foldl (C09G.connSink n) (adjOf (ies.map (toW mode len w))) =
+      targets.foldl (sinkStepW n 0) (sinkRows (adjOf (ies.map (toW mode len w))) n 0 []) from by
+        rw [sinkRows_nil _ _ _ hn]; exact congrArg (fun f => targets.foldl f _) hs]
+  rw [sink_fold 0 hkeys targets [] ht (by simpa using hnd), List.nil_append, sinkRows_zero]
+
+/-- `shortest_path_to_vertex_set` as written INCLUDING its dict-of-dicts construction: the Dijkstra loop of that function
+runs on `connBuild …` -/
+def vertexSet_conn (pop : Pop) (mode : C09G.WMode) (len w : Nat → Rat) (ies : List (Nat × Nat × Nat)) (n start : Nat)
+    (targets : List Nat) (exportMesh : Bool) : Option (Res × Nat) :=
+  let adj := adjOf (ies.map (toW mode len w))
+  let cn := C09G.connBuild mode len w ies n targets
+  C09G.vertexSet_src
+    (fun t => C09G.pathTo_sp (iterG (C09.step_sp pop adj) (fuel adj n) (C09.init_sp start)) n start t)
+    (fun _ => C09G.backSet (iterG (C09.step_set pop cn) (fuel cn (n + 1)) (C09.init_set start)) n start (n + 2))
+    targets exportMesh
+
+theorem bridge_vertexSet_conn (pop : Pop) (mode : C09G.WMode) (len w : Nat → Rat) (ies : List (Nat × Nat × Nat))
+    (n start : Nat) (targets : List Nat) (exportMesh : Bool)
+    (hl : ∀ ie ∈ ies, ie.2.1 ≠ ie.2.2) (hd : DistinctEdges (ies.map (toW mode len w)))
+    (hwf : ∀ ie ∈ ies, ie.2.1 < n ∧ ie.2.2 < n) (ht : ∀ t ∈ targets, t < n) (hnd : targets.Nodup) :
+    vertexSet_conn pop mode len w ies n start targets exportMesh =
+      vertexSet_full pop (adjOf (ies.map (toW mode len w))) n start targets exportMesh := by
+  unfold vertexSet_conn vertexSet_full
+  simp only [bridge_connBuild mode len w ies n targets hl hd hwf ht hnd]
+
+/-- the set query with its own graph construction, for every weight mode with non-negative weights: nearest member,
+valid shortest path -/
+theorem source_vertex_set_nearest_conn {pop : Pop} (hpop : PopOK pop) (mode : C09G.WMode) (len w : Nat → Rat)
+    (ies : List (Nat × Nat × Nat)) {n start : Nat} {targets : List Nat} (exportMesh : Bool) (hs : start < n)
+    (hnn : ∀ ie ∈ ies, 0 ≤ C09G.connWeight mode len w ie.1)
+    (hl : ∀ ie ∈ ies, ie.2.1 ≠ ie.2.2) (hd : DistinctEdges (ies.map (toW mode len w)))
+    (hwf : ∀ ie ∈ ies, ie.2.1 < n ∧ ie.2.2 < n) (ht : ∀ t ∈ targets, t < n) (hnd : targets.Nodup)
+    (hconn : ∃ t ∈ targets, ∃ l W, PathW (adjOf (ies.map (toW mode len w))) start t l W) :
+    ∃ p ind d, vertexSet_conn pop mode len w ies n start targets exportMesh = some (.ok p, ind) ∧ ind ∈ targets ∧
+      p.head? = some start ∧ p.getLast? = some ind ∧ PathW (adjOf (ies.map (toW mode len w))) start ind p d ∧
+      (∀ t ∈ targets, ∀ l' W', PathW (adjOf (ies.map (toW mode len w))) start t l' W' → d ≤ W') := by
+  rw [bridge_vertexSet_conn pop mode len w ies n start targets exportMesh hl hd hwf ht hnd]
+  refine source_vertex_set_nearest hpop (adjOf_nonneg ?_) (adjOf_wf ?_) hs exportMesh ht hconn
+  · intro e he
+    obtain ⟨ie, hie, rfl⟩ := List.mem_map.mp he
+    exact hnn ie hie
+  · intro e he
+    obtain ⟨ie, hie, rfl⟩ := List.mem_map.mp he
+    exact hwf ie hie
+
+/-- the adjacency the loop of `shortest_path` iterates: `vertex_to_vertices(v)` with `edge_length(v, nv)` as written -/
+def adj_sp (mode : C09G.WMode) (len : Nat → Nat → Rat) (w : Nat → Rat) (eid : Nat → Nat → Nat) (vtv : Nat → List Nat) : Adj :=
+  fun v => (vtv v).map (fun nv => (nv, C09G.edgeLength_sp mode len w eid v nv))
+
+/-- the point-to-point query on that adjacency, for all three weight modes: mode "one" needs nothing, "length" the
+non-negativity of lengths, custom the non-negativity of the caller's table (the statement's quantifier) -/
+theorem source_shortest_path_all_modes {pop : Pop} (hpop : PopOK pop) (mode : C09G.WMode) (len : Nat → Nat → Rat) (w : Nat → Rat)
+    (eid : Nat → Nat → Nat) (vtv : Nat → List Nat) {n start : Nat} (hs : start < n) (hv : ∀ v, ∀ x ∈ vtv v, x < n)
+    (hlen : ∀ u v, 0 ≤ len u v) (hw : ∀ e, 0 ≤ w e) (targets : List Nat) (i : Nat) (hi : i < targets.length)
+    (hconn : ∃ l W, PathW (adj_sp mode len w eid vtv) start targets[i] l W) :
+    ∃ l d, (shortestPath_src pop (adj_sp mode len w eid vtv) n start targets)[i]? = some (.ok l) ∧ l.head? = some start ∧
+      l.getLast? = some targets[i] ∧ PathW (adj_sp mode len w eid vtv) start targets[i] l d ∧
+      ∀ l' W', PathW (adj_sp mode len w eid vtv) start targets[i] l' W' → d ≤ W' := by
+  refine source_shortest_path_optimal hpop ?_ ?_ hs targets i hi hconn
+  · intro u e he
+    obtain ⟨nv, _, rfl⟩ := List.mem_map.mp he
+    cases mode
+    · exact zero_le_one
+    · exact hlen u nv
+    · exact hw _
+  · intro u e he
+    obtain ⟨nv, hnv, rfl⟩ := List.mem_map.mp he
+    exact hv u nv hnv
+
 /-! ### the exported polyline on the source-level composition -/
 
 section
@@ -337,5 +456,13 @@ example : vertexSet_full PQ.pop (adjOf exEdges) 6 0 [2] true = some (.ok [0, 1, 
 example : vertexSet_full PQ.pop (adjOf exEdges) 6 0 [] true = none := by decide +kernel
 /-- positive weights, start in the set: trivial path (hypotheses of `vertex_set_start_in_set` are satisfiable) -/
 example : vertexSet PQ.pop (adjOf [(0, 1, 2), (1, 2, 1)]) 3 1 [2, 1] = (.ok [1], 1) := by decide +kernel
+
+/-- the dict of dicts as written on the example graph (edges numbered 0..4, mode custom with the weights of `exEdges`):
+vertex 2 sees 1, 0, 3 in edge order, then the sink 6; the sink sees the targets -/
+example : C09G.connBuild .custom (fun _ => 0) (fun e => [2, 2, 5, 0, 1].getD e 0)
+    [(0, 0, 1), (1, 1, 2), (2, 0, 2), (3, 2, 3), (4, 4, 5)] 6 [3, 2] 2 = [(1, 2), (0, 5), (3, 0), (6, 0)] := by decide +kernel
+example : C09G.connBuild .one (fun _ => 0) (fun _ => 0) [(0, 0, 1), (1, 1, 2)] 3 [2, 0] 3 = [(2, 0), (0, 0)] := by decide +kernel
+example : vertexSet_conn PQ.pop .custom (fun _ => 0) (fun e => [2, 2, 5, 0, 1].getD e 0)
+    [(0, 0, 1), (1, 1, 2), (2, 0, 2), (3, 2, 3), (4, 4, 5)] 6 0 [5, 3] false = some (.ok [0, 1, 2, 3], 3) := by decide +kernel
 
 end Mouette.Props.C09
